@@ -15,7 +15,7 @@ MAX_CONFIRM = 12
 
 MANIFEST_ENTRY = dict(engine="SigNonce", design="§4 C03",
    technique="TLA+ spec SigNonce.tla: TLC exhaustive model checking of the sequence/replay machine (CheckTx and deliver state, all orders of a pool of submissions) and TLC enumeration of the mutation matrix (route x field x mutation); TLC-simulated submission orders and every matrix case executed through the real CheckTx/DeliverTx (full ante chain) of the application; every recorded submission validated by TLC against the property layer (trace validation)",
-   text="TLC proves on the model that with separate CheckTx and deliver sequences, nonce = sequence and increment-on-accept, no transaction is executed twice or with a wrong nonce in any order of valid, replayed, stale, future, badly signed and foreign-chain submissions over several blocks, and that each named way of breaking this is caught. The binding to the code: TLC enumerates the mutation matrix (every signed field, signature component, envelope field and foreign-chain signature of legacy / access-list / dynamic-fee Ethereum transactions, Cosmos DIRECT and amino-JSON transactions, legacy Web3Tx EIP-712 and EIP-712-over-sign-doc transactions); for every case the harness signs a valid transaction, applies the one mutation without signing again, sends the bytes through the real CheckTx and DeliverTx, then delivers the unmutated transaction (which must be accepted, so the mutation was the reason of the rejection); TLC-simulated and seeded random orders of submissions with replays are run the same way. TLC checks every recorded response and the sequences / balances / fee collector before and after against the property layer.",
+   text="TLC proves on the model that with separate CheckTx and deliver sequences, nonce = sequence and increment-on-accept, no transaction is executed twice or with a wrong nonce in any order of valid, replayed, stale, future, badly signed and foreign-chain submissions over several blocks, and that each named way of breaking this is caught. The binding to the code: TLC enumerates the mutation matrix (every signed field, signature component, envelope field, foreign-chain signature and every position of one unauthorised message in 2-3 message Ethereum batches of the same or different senders, for legacy / access-list / dynamic-fee Ethereum transactions, Cosmos DIRECT and amino-JSON transactions, legacy Web3Tx EIP-712 and EIP-712-over-sign-doc transactions); for every case the harness signs a valid transaction, applies the one mutation without signing again, sends the bytes through the real CheckTx and DeliverTx, then delivers the unmutated transaction (which must be accepted, so the mutation was the reason of the rejection); TLC-simulated and seeded random orders of submissions with replays are run the same way. TLC checks every recorded response and the sequences / balances / fee collector before and after against the property layer.",
    note="Cryptography itself (secp256k1, keccak) is trusted; one chain (haqq_11235-1), so replay onto a chain with the same EIP-155 number and another epoch is out of reach; multi-signer and multisig transactions are not in the matrix; bounds in specs/SigNonce_*.cfg.")
 
 
@@ -103,7 +103,7 @@ def run(c):
     scenarios = [{"cfg": {"seed": c.seed * 100 + rep}, "cases": cases, "rep": rep} for rep in range(reps)]
     for i, s in enumerate(scripts):
         steps = [{"ev": "commit"} if st["ev"] == "commit" else
-                 {"ev": "submit", "mode": st["mode"], "tx": {k: st["tx"][k] for k in ("id", "signer", "nonce", "nm", "route", "q")}}
+                 {"ev": "submit", "mode": st["mode"], "tx": {k: st["tx"][k] for k in ("id", "signer", "nonce", "nm", "route", "q", "qpos") if k in st["tx"]}}
                  for st in s]
         scenarios.append({"cfg": {"seed": c.seed * 100000 + i}, "steps": steps})
     with open(os.path.join(wd, "scripts.json"), "w") as fh:
@@ -201,7 +201,7 @@ def run(c):
                 if ln["ev"] == "commit":
                     steps.append({"ev": "commit"})
                 elif ln["ev"] == "submit":
-                    steps.append({"ev": "submit", "mode": ln["mode"], "tx": {k: ln["tx"][k] for k in ("id", "signer", "nonce", "nm", "route", "q")}})
+                    steps.append({"ev": "submit", "mode": ln["mode"], "tx": {k: ln["tx"][k] for k in ("id", "signer", "nonce", "nm", "route", "q", "qpos") if k in ln["tx"]}})
             script = {"cfg": head["cfg"], "steps": steps}
         return save_replay("C03", "%s-scn%d-%s" % (c.seed, v["scn"], zlib.crc32(sig_of(v).encode()) % 100000),
                            {"property": "C03", "driver": "signonce", "script": script, "signature": sig_of(v)})
